@@ -156,6 +156,21 @@ Section Reach.
 
 End Reach.
 
+(* histories of transaction GROUPS (all-or-nothing) *)
+Theorem supply_invariant_groups maxassets c gs : Forall (Forall op_wf) gs ->
+  let w := grun maxassets (winit c) gs in
+  forall a, (forall p, params_of w a = Some p -> supply w a = p_total p) /\
+            (creator_of w a = None -> supply w a = 0).
+Proof.
+  intros F. apply supply_invariant_inv. apply Inv_grun; [apply Inv_winit|exact F].
+Qed.
+
+Lemma failing_group_changes_nothing maxassets w g w' e k :
+  gstep maxassets w g = (w', Err e, k) -> w' = w.
+Proof.
+  unfold gstep. destruct (run_group maxassets w g 0) as [[w1 r] k1]. destruct r; intros H; inversion H; reflexivity.
+Qed.
+
 Lemma failing_op_changes_nothing maxassets w o w' e :
   step maxassets w o = (w', Err e) -> w' = w.
 Proof.
